@@ -1,4 +1,5 @@
 import TongoModel.Tlb.Ty
+import TongoModel.Hashmap
 /-! One hand model per hand-written codec without type parameters (`Prim`). Each mirrors the Go MarshalTLB /
 UnmarshalTLB pair statement by statement (same order of checks and error points). Value shapes follow the generic
 structural dump of the Go value (harness/h/tlbval.go). -/
@@ -7,6 +8,66 @@ open Tongo Tongo.Bits
 
 /-- big.Int.Bytes(): big-endian magnitude without leading zero bytes -/
 def natBytesLen (v : Nat) : Nat := (Builder.bitLen v + 7) / 8
+
+/-! ### dictionaries: the glue between values and C05's model (`Tongo.Hashmap`) -/
+
+/-- FixedSize() of a dictionary key type -/
+def keyWidth : Ty → Option Nat
+  | .uint n => some n
+  | .int n => some n
+  | .bytes m => some (m * 8)
+  | .prim (.bigUint n) => some n
+  | .prim (.bigInt n) => some n
+  | .prim .addrWc => some 288
+  | _ => none
+
+/-- the dump of a dictionary: `()` when empty, otherwise `(keys|values)` (two parallel lists, as in Go) -/
+def dictParts (v : Val) : Option (List Val × List Val) :=
+  match v with
+  | .nil => some ([], [])
+  | .cons ks (.cons vs .nil) => some (ks.toList, vs.toList)
+  | _ => none
+
+def dictVal (ks vs : List Val) : Val :=
+  if ks.isEmpty then .nil else Val.list [Val.list ks, Val.list vs]
+
+/-- pair keys and values; Go refuses fewer values than keys (sortByKeyBits) and ignores surplus values -/
+def zipKV : List Hashmap.Key → List Val → Option (List (Hashmap.Key × Val))
+  | [], _ => some []
+  | _ :: _, [] => none
+  | k :: ks, v :: vs => (zipKV ks vs).map fun r => (k, v) :: r
+
+def mapMOutcome {α β} (f : α → Outcome β) : List α → Outcome (List β)
+  | [] => .ok []
+  | a :: as => do
+    let b ← f a
+    let bs ← mapMOutcome f as
+    pure (b :: bs)
+
+/-! ### wallet.PayloadHighload as a dictionary: message i ↦ key i (uint16), value `mode:uint8 message:^MessageRelaxed` -/
+def hlItems : Nat → Val → Option (List Val × List Val)
+  | _, .nil => some ([], [])
+  | i, .cons (.cons (.cons (.cell c) .nil) (.cons (.int mode) .nil)) rest =>
+    if 0 ≤ mode ∧ mode < 256 then
+      (hlItems (i + 1) rest).map fun r => (.int i :: r.1, .cell (.mk 0 0 (Bits.natToBits 8 mode.toNat) [c]) :: r.2)
+    else none
+  | _, _ => none
+
+/-- the dictionary value (`dictVal`) PayloadHighload.MarshalTLB hands to HashmapE[Uint16, Any] -/
+def hlToDict (v : Val) : Option Val :=
+  (hlItems 0 v).map fun r => dictVal r.1 r.2
+
+/-- PayloadHighload.UnmarshalTLB: every value of the dictionary read back as (mode, ^message), in key order -/
+def hlFromValues : List Val → Option Val
+  | [] => some .nil
+  | .cell (.mk _ _ bits refs) :: rest =>
+    if bits.length < 8 then none
+    else match refs with
+      | [] => none
+      | c :: _ =>
+        (hlFromValues rest).map fun r =>
+          .cons (.cons (.cons (.cell c) .nil) (.cons (.int (Bits.bitsToNat (bits.take 8))) .nil)) r
+  | _ => none
 
 namespace Prim
 
@@ -414,6 +475,9 @@ def enc (p : Prim) (v : Val) (b : Builder) : Outcome Builder :=
   | .vmCellSlice, v => encVmCellSlice v b
   | .payloadV1toV4, v => encPayloadV1toV4 v b
   | .w5Actions, v => encW5Actions v b
+  | .addrWc, .cons (.int wc) (.cons (.bytes addr) .nil) => do
+    let b ← b.writeInt wc 32
+    b.writeBytes addr
   | _, _ => .err "bad value"
 
 def dec (p : Prim) (s : Slice) : Outcome (Val × Slice) :=
@@ -462,6 +526,12 @@ def dec (p : Prim) (s : Slice) : Outcome (Val × Slice) :=
   | .vmCellSlice => decVmCellSlice s
   | .payloadV1toV4 => decPayloadV1toV4 s
   | .w5Actions => decW5Actions s
+  | .addrWc => do
+    let (wc, s) ← s.readInt 32
+    let (addr, s) ← s.readBytes 32
+    -- `addr.Workchain = int8(wc)`
+    let w8 := (wc % 256 + 256) % 256
+    pure (Val.list [.int (if w8 ≥ 128 then w8 - 256 else w8), .bytes addr], s)
 
 /-- zero value of the Go type -/
 def zero (p : Prim) : Val :=
@@ -474,6 +544,7 @@ def zero (p : Prim) : Val :=
   | .msgAddress => Val.ctor "" .nil
   | .vmCellSlice => Val.list [.none, .int 0, .int 0, .int 0, .int 0]
   | .payloadV1toV4 | .w5Actions => .nil
+  | .addrWc => Val.list [.int 0, .bytes (List.replicate 32 0)]
 
 end Prim
 end Tongo.Tlb
